@@ -1321,7 +1321,12 @@ impl<'a, 'b, W: Write> Serializer for &'a mut YamlSerializer<'b, W> {
         self.out.write_str("!!binary ")?;
         let mut s = String::new();
         B64.encode_string(v, &mut s);
-        self.out.write_str(&s)?;
+        if s.is_empty() {
+            // A tag followed by nothing is an empty node, which an `Option` reads as `None`.
+            self.out.write_str("\"\"")?;
+        } else {
+            self.out.write_str(&s)?;
+        }
         self.write_end_of_scalar()?;
         Ok(())
     }
